@@ -38,6 +38,7 @@ VArg *g_fe_args; CLT *g_fe_list; int g_fe_n; _Bool g_fe_ret; int g_cb_n; VArg *g
 #endif
 #ifdef UNIT_HDISPATCHER
 int g_K; WPair g_anonP; int g_n; HCLT *g_cl; int g_kind; int g_cbid; struct Mutex *g_dmutex;
+int g_op; const void *g_cb; Handle g_hp, g_rh; _Bool g_rb;
 #endif
 #ifdef UNIT_CALLBACKLIST
 int g_cs_reads; Mutex *g_cs_mutex;
